@@ -52,7 +52,7 @@ func strByte(L *LState) int {
 		end = l + end + 1
 	}
 
-	if L.GetTop() == 2 {
+	if L.GetTop() <= 2 {
 		if start < 0 || start >= l {
 			return 0
 		}
